@@ -29,6 +29,9 @@ UNPROVED = ["backward stability of the IEEE binary64 / Complex<f64> instance its
             "standard model of floating-point arithmetic (arbitrary real operations with relative error <= u per operation, no underflow/overflow) for the same "
             "Gallina function tsolve; that binary64 (u = 2^-53) satisfies that model away from underflow/overflow is textbook and not re-proved here, and the "
             "complex operators are not covered by it.  The IEEE instance is tied bit-for-bit to the implementation and searched",
+            "thomas_backward_error perturbs the main diagonal by b_i*eb + a_i*gl_i*eg where gl_i is the COMPUTED multiplier of row i, which that theorem does not bound "
+            "(it is the standard componentwise statement |dT| <= f(u)|L||U|); the bound |gl_i| <= 1, hence |dT| <= 14u|T| rowwise, is proved for diagonally dominant systems "
+            "only (thomas_dominant_solved_and_stable, thomas_dominant_backward_stable)",
             "accuracy of the f64 det (searched: 1e-11 * perm|T|)",
             "operand non-mutation / owned=borrowed product forms are run-time observations of the executor"]
 
